@@ -297,13 +297,14 @@ Theorem fetch_spec : forall e gs c lo0, fixoid e = true -> cOIdA c = [] ->
   let lo := update_time_bounds lo0 c in
   simple_fetch e gs c lo0 =
   Ok (match cS c, cP c, cO c with
-      | Some s, Some p, Some o => flat_map (fetch_rows_spo e c (mkTriple s p o)) gs
+      | Some s, Some p, Some o => if fixsb e && outside_bounds lo p then [] else flat_map (fetch_rows_spo e c (mkTriple s p o)) gs
       | _, _, _ => flat_map (fetch_rows e c lo) gs
       end).
 Proof.
   intros e gs c lo0 Hf Hno lo. unfold simple_fetch. fold lo.
   destruct (cS c) as [s|] eqn:ES; destruct (cP c) as [p|] eqn:EP; destruct (cO c) as [o|] eqn:EO.
-  - rewrite (over_graphs_flat gs (fetch_rows_spo e c (mkTriple s p o))); [reflexivity|].
+  - destruct (fixsb e && outside_bounds lo p); [reflexivity|].
+    rewrite (over_graphs_flat gs (fetch_rows_spo e c (mkTriple s p o))); [reflexivity|].
     intros g rows. unfold fetch_rows_spo. destruct (g_exist g (mkTriple s p o)).
     + apply add_triples_rows_of; assumption.
     + rewrite app_nil_r. reflexivity.
